@@ -27,7 +27,7 @@ def unstream(file=sys.stdin):
     def func(package):
         descriptor = read()
         yield Package(descriptor)
-        for _ in descriptor['resources']:
+        for _ in descriptor.get('resources', []):
             yield res_reader()
 
     return func
